@@ -150,6 +150,48 @@ def run(chk):
     else:
         chk.violation("C09.flush", fe, "chunk = self.decompressor.flush(); assert not chunk", "assert", "the final flush() output is not checked: all remaining data would be decompressed at once at EOF")
 
+    # ---- C09.complete: a body that ends inside the compressed stream is an error for every coding, not a short body ------------------------
+    trunc = [r for r, c_ in K.raises_in(fe) if c_ == "ContentEncodingError"]
+    if not trunc:
+        chk.violation("C09.complete", fe, "DeflateBuffer.feed_eof", "if self.size > 0 and not self.decompressor.eof: raise ContentEncodingError", "a body whose compressed stream stops early is delivered as a complete (shorter) body")
+    for r in trunc:
+        lits = [l for c_ in PC.pc(r, raw=True) for l in c_]
+        only = [l for l in lits if "self.encoding" in l.text and l.pos]
+        if any("decompressor.eof" in l.text and not l.pos for l in lits) and not only:
+            chk.ok("C09.complete", r, "feed_eof(): an unfinished compressed stream is a ContentEncodingError whatever the coding")
+        else:
+            chk.violation("C09.complete", r, K.short(r), "not self.decompressor.eof, for every coding",
+                          f"the `stream ended before the compressed data did` test applies only when {only[0].text if only else '?'}: a gzip / br / zstd body cut short inside intact HTTP framing (Content-Length or chunked terminator present) is returned by resp.read() / request.read() as a complete body - 47807 of 95000 bytes for gzip, 0 bytes for zstd with only the last byte missing - and the handler answers 200")
+    # every decompressor the buffer can hold answers `eof`
+    CUm = repo.module(CU)
+    for cname in ("ZLibDecompressor", "BrotliDecompressor", "ZSTDDecompressor"):
+        cl_ = CUm.classes.get(cname)
+        if cl_ is None:
+            continue
+        if repo.method(cl_, "eof") is not None:
+            chk.ok("C09.complete", cl_.node, f"{cname} reports whether the consumed input ended on a stream / member boundary (eof)")
+        else:
+            chk.violation("C09.complete", cl_.node, cname, "eof property", f"{cname} cannot tell whether its stream is complete: truncation of that coding goes unnoticed")
+    # ---- C09.window: the zstd decoder's window is bounded too (it is memory the output limit never sees) ---------------------------------------
+    zs = CUm.classes.get("ZSTDDecompressor")
+    if zs is not None:
+        ctor = [c for m_ in zs.methods.values() for c in prog.calls_in(m_.node) if norm.raw(c.func) == "ZstdDecompressor"]
+        for c in ctor:
+            if any("window_log_max" in norm.raw(k.value) for k in c.keywords) or any("window_log_max" in norm.raw(a) for a in c.args):
+                chk.ok("C09.window", c, "the zstd decompressor is created with window_log_max set")
+            else:
+                chk.violation("C09.window", c, K.short(c), "ZstdDecompressor(options={DecompressionParameter.window_log_max: <limit>})",
+                              "the zstd decoder accepts the library default of 2**27-byte windows: an 8 kB request body declaring a 128 MiB window makes the decoder hold 128 MiB per connection - memory inside the decoder that the reader's water marks, max_length and client_max_size never see (four connections: +513 MiB RSS)")
+    # ---- C09.bounded: the bound handed to the decoder is never the decoders' `unlimited` value 0 by accident -------------------------------------
+    dbf = repo.func(HP, "DeflateBuffer.feed_data")
+    ml = [v for _d, v in norm.fn_defs(dbf.node).defs.get("max_length", []) if v is not None]
+    for v in ml:
+        mx = [c for c in ast.walk(v) if isinstance(c, ast.Call) and norm.raw(c.func) == "max"]
+        if mx and all(any(isinstance(a, ast.Constant) and isinstance(a.value, int) and a.value >= 1 for a in c.args) for c in mx):
+            chk.ok("C09.bounded", v, "the decompression bound is at least 1 unless `no limit` was asked for explicitly")
+        else:
+            chk.violation("C09.bounded", v, K.short(v, 70), "max(self._max_decompress_size, low_water, 1)",
+                          "with read_bufsize=0 the bound is max(0, 0) = 0, which zlib takes for `unlimited`: a 64 MiB gzip bomb is inflated in one call, while read_bufsize=1 holds 3 bytes")
     # ---- C09.pause --------------------------------------------------------------------------------------------
     n = 0
     for q in ("HttpPayloadParser.feed_data", "HttpPayloadParser.feed_eof"):
